@@ -926,10 +926,14 @@ static void enumerate_frame(FrameBase& f) {
         // C05: enumerate precedence/associativity only when the canonical collection has an S/R conflict
         ref::Analysis an = ref::analyse(g);
         ref::LR1 can = ref::build_lr1(g, an, false);
-        if (!can.any_sr) { if (cfg.has("C05")) { ctr["C05.skipped_no_sr"]++; continue; } run_one(g); continue; }
-        // terms and rules that take part in some S/R cell
+        const bool rr_too = cfg.with_prec && can.any_rr;   // diagnostics runs: precedences must not make a reduce/reduce conflict disappear
+        if (!can.any_sr && !rr_too) { if (cfg.has("C05")) { ctr["C05.skipped_no_sr"]++; continue; } run_one(g); continue; }
+        // terms and rules that take part in some S/R cell (and, for the diagnostics runs, in some R/R cell)
         bool tin[ref::MAXT] = {}, rin[ref::MAXR] = {};
-        for (auto& st : can.st) for (int t = 0; t < g.nterms(); ++t) if (st.cell[t].sr) { if (t < g.T) tin[t] = true; int r = st.cell[t].red[0]; rin[r] = true; int lt = g.last_term(r); if (lt >= 0 && lt < g.T) tin[lt] = true; }
+        for (auto& st : can.st) for (int t = 0; t < g.nterms(); ++t) {
+            if (st.cell[t].sr) { if (t < g.T) tin[t] = true; int r = st.cell[t].red[0]; rin[r] = true; int lt = g.last_term(r); if (lt >= 0 && lt < g.T) tin[lt] = true; }
+            if (rr_too && st.cell[t].rr) for (int k = 0; k < st.cell[t].nred && k < 4; ++k) { int r = st.cell[t].red[k]; if (r < g.R) { rin[r] = true; int lt = g.last_term(r); if (lt >= 0 && lt < g.T) tin[lt] = true; } }
+        }
         std::vector<int> tl, rl; for (int t = 0; t < g.T; ++t) if (tin[t]) tl.push_back(t); for (int r = 0; r < g.R; ++r) if (rin[r]) rl.push_back(r);
         unsigned long long np = 1; for (size_t k = 0; k < tl.size(); ++k) np *= (unsigned long long)cfg.prec_levels * 3;
         for (unsigned long long pi = 0; pi < np; ++pi) {
